@@ -14,7 +14,7 @@
     start / run / run-and-continue / run-continue-and-wait / run_session /
     reset / close / signal calls from any number of tasks, valid or refused,
     under every interleaving of the tasks, the run task and the child's exit. *)
-From NL Require Import Life.Model Life.LockInv Life.FsmInv Life.Hist Life.ContFlag.
+From NL Require Import Life.Model Life.LockInv Life.FsmInv Life.Hist Life.ContFlag Life.ContTie.
 Open Scope Z_scope.
 
 (** The structural invariant ([cont_inv], Life/ContFlag.v):
@@ -226,6 +226,240 @@ Example C16_example_close_pending :
      [(0%nat, CStart, ROk); (1%nat, CRunCont, ROk); (2%nat, CClose, ROk); (3%nat, CRunCont, RMachineError)]).
 Proof. vm_compute. repeat split; reflexivity. Qed.
 
+(** ======================================================================================
+    Tie of the Continuous part of the model to nextline/continuous.py and the call sites in
+    nextline/main.py.  Gen/ContinuousSkel.v is REGENERATED from the source on every check by
+    the fail-closed translator translate/continuous_skeleton.py (every method of Continue,
+    Continuous and the Nextline methods that start/close/use the mode, as statement programs);
+    Life/ContTie.v interprets the programs ([exec (prog m) e cur sh fr], environment [e]:
+    for every await that is not translated code an ARBITRARY interference on the shared state
+    and whether / with which kind of exception it raises) and proves the statements below.
+    [sh_m sh] is a state of the model, [sh_cnt sh] the counter `_n_requests` (the model uses
+    [length (cont_plugins s)]: [counted]), [sh_item sh] the closed flag of the PubSubItem (the
+    model uses [cont_closed]: [coherent]). *)
+
+(** Continuous._requested, for ALL environments: up to the `yield` it is the model's entry
+    ([entry_m]: publish True, register (t, false)), counter + 1, ContextVar = own plugin (the
+    second argument of [e_interf]); after the body: accepted -> nothing; raised (any class
+    but the interpreter's own [XStuck]) -> exactly the plugin of this request unregistered,
+    counter - 1, flag re-published from the counter unless closed, exception re-raised; the
+    ContextVar restored on every path ([after_with]) *)
+Theorem C16_tie_requested_all_env : forall e cur sh fr,
+  env_ok e -> coherent sh -> cont_closed (sh_m sh) = false ->
+  let t := fr_me fr in
+  let sh1 := mkSh (entry_m (sh_m sh) t) (sh_cnt sh + 1) false in
+  let sh2 := e_interf e CBody (Some t) sh1 in
+  exec (prog MRequested) e cur sh fr =
+  match e_exc e CBody with
+  | None => (Fin, sh2, after_with fr)
+  | Some XStuck => (Exc XStuck, sh2, after_with fr)
+  | Some x =>
+      (Exc x, disable_sh (set_m sh2 (unreg_m (sh_m sh2) t (e_own_started e))), after_with fr)
+  end.
+Proof. exact requested_all_env. Qed.
+
+(** the request against the model's [do_call]: open -> [acquire] is entered with exactly the
+    state the generator hands to its body, and [counted] is kept; closed -> RuntimeError out
+    of publish(True), nothing registered or published *)
+Theorem C16_tie_entry : forall s t c e cur fr n,
+  is_cont c = true -> find_task (tasks s) t = None -> fr_me fr = t -> env_ok e ->
+  let s0 := set_trace s (EvCall t c :: trace s) in
+  let sh := mkSh s0 n (cont_closed s0) in
+  (cont_closed s = false ->
+     let sh1 := mkSh (entry_m s0 t) (n + 1) false in
+     do_call s t c = acquire (sh_m sh1) t c false /\
+     (counted sh -> counted sh1) /\
+     exec (prog MRequested) e cur sh fr =
+       (let sh2 := e_interf e CBody (Some t) sh1 in
+        match e_exc e CBody with
+        | None => (Fin, sh2, after_with fr)
+        | Some XStuck => (Exc XStuck, sh2, after_with fr)
+        | Some x => (Exc x, disable_sh (set_m sh2 (unreg_m (sh_m sh2) t (e_own_started e))), after_with fr)
+        end)) /\
+  (cont_closed s = true ->
+     do_call s t c = finish_call s0 t c RRuntimeError /\
+     exec (prog MRequested) e cur sh fr = (Exc XOrdinary, set_cnt sh (n + 1), fr)).
+Proof. exact tie_entry. Qed.
+
+(** the refusal path against the model's [refuse] (MachineError = an ordinary exception,
+    raised before the run exists: the plugin is unstarted), in whatever state [release s] the
+    refusal happens; the counter stays the length of the registry *)
+Theorem C16_tie_refuse : forall s t c e cur sh0 fr,
+  is_cont c = true -> fr_me fr = t -> env_ok e -> coherent sh0 -> cont_closed (sh_m sh0) = false ->
+  e_exc e CBody = Some XOrdinary -> e_own_started e = false ->
+  let s1 := release s in
+  (forall v x, e_interf e CBody v x = mkSh s1 (Z.of_nat (length (cont_plugins s1))) (cont_closed s1)) ->
+  NoDup (cont_plugins s1) -> In (t, false) (cont_plugins s1) ->
+  exists sh',
+    exec (prog MRequested) e cur sh0 fr = (Exc XOrdinary, sh', after_with fr) /\
+    refuse s t c = finish_call (sh_m sh') t c RMachineError /\
+    counted sh' /\ coherent sh'.
+Proof. exact tie_refuse. Qed.
+
+(** ... and on every reachable state of the model in which a continue request that has just
+    been given the lock is refused (the hypotheses NoDup / In are theorems there) *)
+Theorem C16_tie_refuse_reachable : forall a b c d ls t c0 e cur sh0 fr,
+  let s := run_labels (init_state a b c d) ls in
+  find_task (tasks s) t = Some (c0, Granted1) -> is_cont c0 = true -> st_fsm s <> Initialized ->
+  fr_me fr = t -> env_ok e -> coherent sh0 -> cont_closed (sh_m sh0) = false ->
+  e_exc e CBody = Some XOrdinary -> e_own_started e = false ->
+  (forall v x, e_interf e CBody v x =
+               mkSh (release s) (Z.of_nat (length (cont_plugins (release s)))) (cont_closed (release s))) ->
+  exists sh',
+    exec (prog MRequested) e cur sh0 fr = (Exc XOrdinary, sh', after_with fr) /\
+    step s (Step t) = finish_call (sh_m sh') t c0 RMachineError /\
+    counted sh' /\ coherent sh'.
+Proof. exact tie_refuse_reachable. Qed.
+
+(** Continuous.disable: never raises; decrements; publishes `counter > 0` unless closed *)
+Theorem C16_tie_disable : forall e cur sh fr,
+  coherent sh ->
+  exec (prog MDisable) e cur sh fr = (Fin, disable_sh sh, fr).
+Proof. exact disable_exec. Qed.
+
+Theorem C16_tie_disable_model : forall sh,
+  cont_closed (sh_m sh) = false -> sh_cnt sh = Z.of_nat (S (length (cont_plugins (sh_m sh)))) ->
+  sh_m (disable_sh sh) = cont_disable (sh_m sh) /\ counted (disable_sh sh).
+Proof. exact disable_model. Qed.
+
+(** Continuous.close = the model's [close_cont] *)
+Theorem C16_tie_close : forall e cur sh fr,
+  sh_item sh = false ->
+  exec (prog MClose) e cur sh fr = (Fin, close_sh sh, fr).
+Proof. exact close_exec. Qed.
+
+Theorem C16_tie_close_model : forall sh, counted sh ->
+  sh_m (close_sh sh) = close_cont (sh_m sh) /\ coherent (close_sh sh) /\ counted (close_sh sh).
+Proof. exact close_model. Qed.
+
+(** Nextline.start against [do_call ... CStart]: False is published before Imp.aopen *)
+Theorem C16_tie_nl_start : forall s t e cur n fr,
+  find_task (tasks s) t = None -> nl_started s = false ->
+  let s0 := set_trace s (EvCall t CStart :: trace s) in
+  let x := publish (set_nl_started s0 true) (PCont false) in
+  do_call s t CStart = acquire x t CStart false /\
+  exec (prog MNlStart) e cur (mkSh s0 n false) fr =
+    (match e_exc e CImpOpen with Some y => Exc y | None => Fin end, e_interf e CImpOpen (fr_ctx fr) (mkSh x n false), fr).
+Proof. exact tie_nl_start. Qed.
+
+(** Nextline.close: Imp.aclose first; Continuous.close after it and only if it returned *)
+Theorem C16_tie_nl_close_order : forall e cur sh fr,
+  nl_started (sh_m sh) = true ->
+  let sh0 := set_m sh (set_nl_closed (sh_m sh) true) in
+  let sh1 := e_interf e CImpClose (fr_ctx fr) sh0 in
+  sh_item sh1 = false ->
+  exec (prog MNlClose) e cur sh fr =
+  if nl_closed (sh_m sh) then (Fin, sh, fr)
+  else match e_exc e CImpClose with
+       | Some x => (Exc x, sh1, fr)
+       | None => (Fin, close_sh sh1, fr)
+       end.
+Proof. exact nl_close_exec. Qed.
+
+Theorem C16_tie_nl_close : forall s1 e cur sh fr,
+  nl_started (sh_m sh) = true -> nl_closed (sh_m sh) = false -> e_exc e CImpClose = None ->
+  (forall v x, e_interf e CImpClose v x = mkSh s1 (Z.of_nat (length (cont_plugins s1))) false) ->
+  exists sh', exec (prog MNlClose) e cur sh fr = (Fin, sh', fr) /\
+              sh_m sh' = close_cont s1 /\ coherent sh' /\ counted sh'.
+Proof. exact tie_nl_close. Qed.
+
+(** plain run(): Continuous is not touched and the ContextVar of the caller is what the run
+    task inherits *)
+Theorem C16_tie_plain_run : forall e cur sh fr,
+  exec (prog MNlRun) e cur sh fr =
+  (match e_exc e CImpRun with Some x => Exc x | None => Fin end, e_interf e CImpRun (fr_ctx fr) sh, fr).
+Proof. exact nl_run_exec. Qed.
+
+(** run_and_continue = `_requested` around exactly Imp.run() *)
+Theorem C16_tie_run_and_continue : forall e cur sh fr,
+  env_ok e -> coherent sh -> cont_closed (sh_m sh) = false ->
+  exec (prog MNlRunAndContinue) e cur sh fr = exec (prog MRequested) (env_body e CImpRun) cur sh fr.
+Proof. exact run_and_continue_exec. Qed.
+
+(** run_continue_and_wait: `_requested` covers exactly the entering of run_session
+    (= Imp.run()); the wait for the end of the run comes after it, only if accepted *)
+Theorem C16_tie_run_continue_and_wait : forall e cur sh fr,
+  env_ok e -> coherent sh -> cont_closed (sh_m sh) = false -> fr_deferred fr = [] ->
+  exec (prog MNlRunContinueAndWait) e cur sh fr =
+  let '(o, sh', fr') := exec (prog MRequested) (env_body e CImpRun) cur sh fr in
+  match o with
+  | Fin => (match e_exc e CImpWait with Some x => Exc x | None => Fin end, e_interf e CImpWait (fr_ctx fr') sh', fr')
+  | _ => (o, sh', fr')
+  end.
+Proof. exact run_continue_and_wait_exec. Qed.
+
+(** Continue.on_start_run over the registry = the model's [arm]: `_run_started` is set only
+    for the plugin whose own request created the run task's context *)
+Theorem C16_tie_arm : forall e cur sh requested owner l,
+  map (fun x => (fst x, fr_started (snd (exec (prog MOnStartRun) e cur sh (plugin_frame x (run_ctx requested owner)))))) l
+  = arm requested owner l.
+Proof. exact tie_arm. Qed.
+
+(** Continue.on_start_prompt sends the command iff `_run_started` *)
+Theorem C16_tie_on_start_prompt : forall e cur sh fr,
+  exec (prog MOnStartPrompt) e cur sh fr =
+  if fr_started fr
+  then (match e_exc e CSendCmd with Some x => Exc x | None => Fin end,
+        e_interf e CSendCmd (fr_ctx fr) sh, set_sent fr (S (fr_sent fr)))
+  else (Fin, sh, fr).
+Proof. exact on_start_prompt_exec. Qed.
+
+(** Continue.on_finished acts iff `_run_started`: unregisters itself, then disable() *)
+Theorem C16_tie_on_finished : forall e cur sh fr,
+  coherent sh ->
+  exec (prog MOnFinished) e cur sh fr =
+  if fr_started fr then (Fin, disable_sh (set_m sh (unreg_m (sh_m sh) (fr_me fr) true)), fr)
+  else (Fin, sh, fr).
+Proof. exact on_finished_exec. Qed.
+
+(** one unrolling of the model's [cont_finished] = the interpreted on_finished of the first
+    started plugin *)
+Theorem C16_tie_cont_finished : forall e cur m n t b rest fuel,
+  cont_closed m = false -> NoDup (cont_plugins m) ->
+  filter (fun x => snd x) (cont_plugins m) = (t, b) :: rest ->
+  let sh := mkSh m (Z.of_nat (length (cont_plugins m))) false in
+  let r := exec (prog MOnFinished) e cur sh (plugin_frame (t, true) n) in
+  cont_finished m (S fuel) = cont_finished (sh_m (snd (fst r))) fuel /\ counted (snd (fst r)).
+Proof. exact tie_cont_finished. Qed.
+
+(** who writes what: `_run_started` only Continue.__init__ / on_start_run; the ContextVar
+    only `_requested`; counter, `_closed`, the item, registration only the five methods of
+    Continuous that the theorems above cover *)
+Theorem C16_tie_writers :
+  forallb (fun m => negb (writes is_set_started (resolve m)) || meth_in m [MCInit; MOnStartRun]) all_meths = true /\
+  forallb (fun m => negb (writes is_ctx_write (resolve m)) || meth_in m [MRequested]) all_meths = true /\
+  forallb (fun m => negb (writes is_cont_write (resolve m)) || meth_in m [MInit; MStart; MClose; MRequested; MDisable]) all_meths = true.
+Proof. exact writers. Qed.
+
+(** the published flag is `counter > 0` unless closed (then off) after __init__ + start,
+    after disable, after close, and on every way out of `_requested` for all environments
+    whose interference keeps it *)
+Theorem C16_tie_flag_init_start : forall e cur sh fr,
+  let sh0 := snd (fst (exec (prog MInit) e cur sh fr)) in
+  flag_inv (snd (fst (exec (prog MStart) e cur sh0 fr))).
+Proof. exact flag_init_start. Qed.
+
+Theorem C16_tie_flag_disable : forall sh, flag_inv sh -> flag_inv (disable_sh sh).
+Proof. exact flag_disable. Qed.
+
+Theorem C16_tie_flag_close : forall sh, flag_inv sh -> cont_closed (sh_m sh) = false -> flag_inv (close_sh sh).
+Proof. exact flag_close. Qed.
+
+Theorem C16_tie_flag_requested : forall e cur sh fr,
+  env_ok e -> coherent sh -> cont_closed (sh_m sh) = false -> 0 <= sh_cnt sh ->
+  (forall c v x, flag_inv x -> flag_inv (e_interf e c v x)) ->
+  flag_inv (snd (fst (exec (prog MRequested) e cur sh fr))).
+Proof. exact flag_requested. Qed.
+
+(** non-vacuity of the tie: a concrete environment and state (one run in progress, task 3's
+    run_and_continue cancelled inside Imp.run()) *)
+Example C16_tie_example_nonvacuous :
+  let '(o, sh', fr') := exec (prog MNlRunAndContinue) ex_env None ex_sh ex_fr in
+  o = Exc XBaseOnly /\ sh_cnt sh' = 1 /\ cont_plugins (sh_m sh') = [(7%nat, true)] /\
+  rev (cpubs (trace (sh_m sh'))) = [true; true; true] /\ fr_ctx fr' = None /\
+  env_ok ex_env /\ coherent ex_sh /\ counted ex_sh /\ flag_inv ex_sh /\ flag_inv sh'.
+Proof. exact ex_refused_nonvacuous. Qed.
+
 Print Assumptions C16_cont_inv.
 Print Assumptions C16_at_most_one_started.
 Print Assumptions C16_started_only_in_own_run.
@@ -242,3 +476,27 @@ Print Assumptions C16_refused_after_close.
 Print Assumptions C16_closed_silent.
 Print Assumptions C16_example_nonvacuous.
 Print Assumptions C16_example_close_pending.
+Print Assumptions C16_tie_requested_all_env.
+Print Assumptions C16_tie_entry.
+Print Assumptions C16_tie_refuse.
+Print Assumptions C16_tie_refuse_reachable.
+Print Assumptions C16_tie_disable.
+Print Assumptions C16_tie_disable_model.
+Print Assumptions C16_tie_close.
+Print Assumptions C16_tie_close_model.
+Print Assumptions C16_tie_nl_start.
+Print Assumptions C16_tie_nl_close_order.
+Print Assumptions C16_tie_nl_close.
+Print Assumptions C16_tie_plain_run.
+Print Assumptions C16_tie_run_and_continue.
+Print Assumptions C16_tie_run_continue_and_wait.
+Print Assumptions C16_tie_arm.
+Print Assumptions C16_tie_on_start_prompt.
+Print Assumptions C16_tie_on_finished.
+Print Assumptions C16_tie_cont_finished.
+Print Assumptions C16_tie_writers.
+Print Assumptions C16_tie_flag_init_start.
+Print Assumptions C16_tie_flag_disable.
+Print Assumptions C16_tie_flag_close.
+Print Assumptions C16_tie_flag_requested.
+Print Assumptions C16_tie_example_nonvacuous.
